@@ -391,7 +391,16 @@ class Normaliser:
             if isinstance(s, (ast.Assign, ast.Return)) and isinstance(s.value, ast.IfExp):
                 def mk(v):
                     return ast.Return(value=v) if isinstance(s, ast.Return) else ast.Assign(targets=copy.deepcopy(s.targets), value=v)
-                new = ast.If(test=s.value.test, body=[mk(s.value.body)], orelse=[mk(s.value.orelse)])
+                def selfassign(v):
+                    return isinstance(s, ast.Assign) and len(s.targets) == 1 and isinstance(s.targets[0], ast.Name) and \
+                        isinstance(v, ast.Name) and v.id == s.targets[0].id
+                if selfassign(s.value.body) and not selfassign(s.value.orelse):
+                    # x = x if c else e   ->   if not c: x = e
+                    new = ast.If(test=ast.UnaryOp(op=ast.Not(), operand=s.value.test), body=[mk(s.value.orelse)], orelse=[])
+                elif selfassign(s.value.orelse):
+                    new = ast.If(test=s.value.test, body=[mk(s.value.body)], orelse=[])
+                else:
+                    new = ast.If(test=s.value.test, body=[mk(s.value.body)], orelse=[mk(s.value.orelse)])
                 ast.copy_location(new, s)
                 for n in ast.walk(new):
                     ast.copy_location(n, s) if not hasattr(n, 'lineno') else None
